@@ -12,7 +12,7 @@
      lq_of4 q                   a document quad as `den` reports it
      known_C13_*                the decidable classes of the known findings              (Classes.v) *)
 Require Import KV.Codec13.Model KV.Codec13.Spec KV.Codec13.Wf KV.Codec13.WfTtl KV.Codec13.Classes KV.Codec13.Inv KV.Codec13.Witness.
-Require Import KV.Codec13.ChunkProofs KV.Codec13.NtProofs KV.Codec13.N3Proofs KV.Codec13.TtlProofs KV.Codec13.AgreeProofs KV.Codec13.RefuteProofs.
+Require Import KV.Codec13.ChunkProofs KV.Codec13.NtProofs KV.Codec13.N3Proofs KV.Codec13.TtlProofs KV.Codec13.AgreeProofs KV.Codec13.IdsProofs KV.Codec13.RefuteProofs.
 
 (* (1) Splitting the document into chunks of ANY size n >= 1, parsing each chunk on its own (one rayon
    task per chunk) and concatenating the results in chunk order gives exactly the per-line parse of
@@ -58,6 +58,25 @@ Theorem C13_nquads :
     forall lq, In lq (den (load_nq (render_doc doc) x)) <-> In lq (den x) \/ In lq (map lq_of4 (triples_of doc)).
 Proof. exact nquads_main. Qed.
 Print Assumptions C13_nquads.
+
+(* identifiers of existing terms are stable under loading (N-Triples for every chunk size, N-Quads):
+   whatever term an identifier denoted before, it denotes after; so every prior quad keeps its reading
+   and a term new to the dictionary gets an identifier that denoted nothing before. *)
+Theorem C13_ids_stable :
+  forall (n : nat) (doc : list item) (x : db),
+    (1 <= n)%nat -> wf_doc_nt doc = true -> known_C13_reclean doc = false -> db_ok x ->
+    next_id (d_dict x) + 4 * N.of_nat (length (triples_of doc)) <= QBIT ->
+    forall i s, decode_any x i = Some s -> decode_any (load_nt_n n (render_doc doc) x) i = Some s.
+Proof. exact ntriples_ids_stable. Qed.
+Print Assumptions C13_ids_stable.
+
+Theorem C13_ids_stable_nquads :
+  forall (doc : list item) (x : db),
+    wf_doc_nq doc = true -> known_C13_reclean doc = false -> db_ok x ->
+    next_id (d_dict x) + 4 * N.of_nat (length (triples_of doc)) <= QBIT ->
+    forall i s, decode_any x i = Some s -> decode_any (load_nq (render_doc doc) x) i = Some s.
+Proof. exact nquads_ids_stable. Qed.
+Print Assumptions C13_ids_stable_nquads.
 
 (* the re-cleaning class is a genuine violation: the literal " x" is loaded as "x" *)
 Theorem C13_reclean_refuted :
